@@ -25,8 +25,8 @@ let ptattrs a = List.iter postr a.ta_s; popt_with pz a.ta_z
 let rtstyle r = let k = rstr r in let i = rstr r in let rf = rostr r in let a = rtattrs r in (k, { ts_id = i; ts_ref = rf; ts_attrs = a })
 let cmp_key (a, _) (b, _) = compare (List.map int_of_n a) (List.map int_of_n b)
 let ptstyles l = plist (fun (k, s) -> pstr k; pstr s.ts_id; postr s.ts_ref; ptattrs s.ts_attrs) (List.sort cmp_key l)
-let rtrun r = let t = rstr r in let s = rostr r in let a = rtattrs r in { tr_text = t; tr_style = s; tr_attrs = a }
-let ptrun x = pstr x.tr_text; postr x.tr_style; ptattrs x.tr_attrs
+let rtrun r = let t = rstr r in let s = rostr r in let a = rtattrs r in { tr_txt = t; tr_style = s; tr_attrs = a }
+let ptrun x = pstr x.tr_txt; postr x.tr_style; ptattrs x.tr_attrs
 let rtitem r =
   let s = rz r in let e = rz r in let rg = rostr r in let sy = rostr r in let a = rtattrs r in
   let ls = rlist (rlist rtrun) r in
